@@ -70,7 +70,8 @@ void rep_init(void)
 	g_report_fd = dup(1);
 	if (!getenv("OFH_LIBOUT")) {
 		int nul = open("/dev/null", O_WRONLY);
-		if (nul >= 0) { dup2(nul, 1); dup2(nul, 2); close(nul); }
+		/* OFH_KEEP_STDERR: the driver captured fd 2 in a file (UBSan reports of the gcc runtime go there) */
+		if (nul >= 0) { dup2(nul, 1); if (!getenv("OFH_KEEP_STDERR")) dup2(nul, 2); close(nul); }
 	}
 	g_setcap = 1u << 16; g_set = calloc(g_setcap, sizeof *g_set);
 }
